@@ -170,7 +170,9 @@ func Run(tier string, sh lib.Shard, rep *lib.Report) {
 	}
 	// 5. request.header.X
 	names := []string{"X-Api-Key", "x-api-key", "X-API-KEY", "Authorization", "X",
-		"authorization", "user-agent", "source", "tenant", "host", "date", "etag", "request", "header", "request.header.x", "x.dotted", "a", "Te"}
+		"authorization", "user-agent", "source", "tenant", "host", "date", "etag", "request", "header", "request.header.x", "x.dotted", "a", "Te",
+		// header names that coincide with the OTHER variables of the extractor language ('.' is a legal header-name character)
+		"client.ip", "Client.Ip", "CLIENT.IP", "request.host", "Request.Host", "request.header", "client", "ip", "host"}
 	// every name of length <= 3 over a small alphabet of header-name characters
 	var short func(cur string)
 	short = func(cur string) {
